@@ -201,7 +201,8 @@ def check_misc(case):
         inner.e = h.ExternalModule(name="W5", port_list=[h.Inout(name="p", width=3), h.Inout(name="q"), h.Inout(name="r"), h.Inout(name="s", width=2)], desc="", domain="w")()(p=inner.a, q=inner.o, r=inner.b.x, s=inner.b.y)
         EU = h.ExternalModule(name="WU", port_list=[h.Inout(name="a"), h.Inout(name="_sub"), h.Inout(name="name")], desc="",
                               domain="w")
-        for target in (inner, h.R(r=1), h.Nmos(), EU()):
+        EIn = h.ExternalModule(name="WIn", port_list=[h.Inout(name="inner"), h.Inout(name="z")], desc="", domain="w")
+        for target in (inner, h.R(r=1), h.Nmos(), EU(), EIn()):
             wr = Wrapper(target)
             from hdl21.instantiable import io
             tio = io(target)
@@ -209,7 +210,9 @@ def check_misc(case):
             if sorted(got) != sorted(tio):
                 return ("wrapper.ports", f"Wrapper({target}) exposes {sorted(got)}, target has {sorted(tio)}", w)
             insts = list(wr.instances.values())
-            if len(insts) != 1 or insts[0].name != "inner" or insts[0].of is not target:
+            # (the instance is called `inner`; with a unit port of that name, `inner` followed by underscores)
+            if len(insts) != 1 or insts[0].name.rstrip("_") != "inner" or insts[0].of is not target or \
+                    (insts[0].name != "inner" and "inner" not in tio):
                 return ("wrapper.instance", f"Wrapper({target}) has instances {[i.name for i in insts]}", w)
             for pn in tio:
                 if insts[0].conns.get(pn) is not got[pn]:
@@ -255,9 +258,9 @@ def run(ctx):
     ctx.verify(cs.unused_engine(), cs.VERIFY_UNUSED, min_obligations={cs.VERIFY_UNUSED[0].key: 3})
     n_sites, offenders = cs.series_site_audit()
     ctx.obligations += 1
-    if offenders or n_sites < 2:
+    if offenders or n_sites < 3:
         from vcheck.core import Violation
-        ctx.violations.append(Violation("hdl21.generators:Series/internal-names", f"Series names an internal object without "
+        ctx.violations.append(Violation("hdl21.generators:Series/internal-names", f"Series / Wrapper name an internal object without "
                               f"_unused_name ({n_sites} naming sites): {offenders[:3]}", {"property": "C19", "obligation":
                               "callsite/internal-names-through-_unused_name", "offenders": offenders}, False))
     else:
